@@ -25,7 +25,7 @@ def origin_chain(fn, node, limit=12):
             i = init
         elif k == 'UnaryOperator' and nd.get('op') == '*':
             i = fn.kids(i)[0]
-        elif k == 'CXXOperatorCallExpr' and nd.get('op') in ('*', '->') and len(fn.kids(i)) >= 2:
+        elif k == 'CXXOperatorCallExpr' and nd.get('op') in ('*', '->', '[]') and len(fn.kids(i)) >= 2:
             i = fn.kids(i)[1]
         elif k == 'CXXMemberCallExpr' and any(nd.get('callee', '').endswith(s) for s in DEREF_METHODS):
             i = fn.receiver(i)
